@@ -3,6 +3,14 @@
 #
 #   tools/run_rs2lean.sh [GROUP ...]      GROUP in {FnBitMask, FnAccessRight, FnCmd}; default: all
 #
+#   FnBitMask      genapi/src/masked_int_reg.rs  impl BitMask                      (C02, Proofs/C02GenTie.lean)
+#   FnAccessRight  impl/src/memory.rs            impl AccessRight                  (C20, Proofs/C20GenTie.lean)
+#   FnCmd          device/src/u3v/protocol/cmd.rs  maximum_read_length, into_scd_len, ReadMem::chunks,
+#                  <ReadMemChunks as Iterator>::next (state passing)  (C10, Proofs/C10GenTie.lean, C10GenTie2.lean);
+#                  CommandPacket::{header_len, cmd_len, maximum_ack_len}, ReadMem/WriteMem CommandScd
+#                  length methods                                      (C09, Proofs/C09GenTie.lean)
+#   (every props/Cxx.json whose Lean import closure contains Gen/FnCmd.lean lists `FnCmd`: C06, C07, C09, C10)
+#
 # Builds the translator if needed (offline; under a lock so that concurrent checks do not race in
 # cargo), then runs it on ${VERIF_REPO:-/repo}.  Prints `HASH <file> <sha256>` lines (picked up by
 # ./check as evidence).  Exit status != 0 when a target is outside the supported subset (the
